@@ -68,6 +68,16 @@ func init() {
 		Rule: "one case = one seeded simulated run in which vaults are seized and several bidders place tiny/partial/exact/over-sized dutch bids at PRNG-chosen times relative to price updates and restarts; distinct = distinct digest of (event, outcome) sequence; non-trivial = at least one successful bid was checked against the posted price from balance deltas",
 		Assume: []string{"V2 vault-initiated dutch auctions; lend- and externally-initiated auctions and the v1 generation are covered by the lend/auctions scenarios when built"},
 	}
+	props["C17"] = &PropSpec{
+		ID: "C17", Level: "exploration", Scenarios: []string{"oracle"}, PanicIsViolation: true,
+		Oracles:   func(w *World) []Oracle { return []Oracle{&c17Oracle{}} },
+		Quick:     Budget{Runs: 160, MaxEvents: 140},
+		Thorough:  Budget{Runs: 8000, MaxEvents: 500},
+		Essential: []string{"c17.active_mean_checked"},
+		BatchProbe: []string{"c17.active_mean_checked", "c17.active_mean_checked_n_ge_2", "c17.zero_sample", "c17.feed_outage_ended", "c17.huge_sample", "c17.inactive_observed"},
+		Rule: "one case = one seeded run of the real bandoracle+market pipeline for a drawn window size N in {1,2,3,5,10} and accepted gap, fed through the real IBC callbacks with PRNG-chosen packet fates (drop ack/response/both, reorder, duplicate, stale id, short list, wrong channel, late old response) and sample values (random, zero, repeated, max uint64), assets added mid-run; compared after every block with a reference model (set of admissible windows; mean in big integers); distinct = distinct digest of (event, outcome) sequence; non-trivial = at least one active price was compared with the model mean",
+		Assume: []string{"the sample sequence is what bandoracle publishes to market (last acknowledged request id + stored result + validation flag)", "after an outage whose length is within 20 blocks of the configured gap both keeping and clearing the window are accepted"},
+	}
 	props["C03"] = &PropSpec{
 		ID: "C03", Level: "exploration", Scenarios: []string{"cdp"},
 		Oracles:   func(w *World) []Oracle { return []Oracle{&c03Oracle{}} },
